@@ -126,6 +126,17 @@ impl ShellEnvironment {
         (self.verif_id.0, self.scopes.len())
     }
 
+    /// Returns whether the innermost scope itself holds a variable with the given name.
+    ///
+    /// # Arguments
+    ///
+    /// * `name` - The name of the variable to look for.
+    pub(crate) fn innermost_scope_has(&self, name: &str) -> bool {
+        self.scopes
+            .last()
+            .is_some_and(|(_, map)| map.get(name).is_some())
+    }
+
     /// Pushes a new scope of the given type onto the environment's scope stack.
     ///
     /// # Arguments
